@@ -400,8 +400,18 @@ def main(argv):
     reg = load_registry()
     hs = select(reg, prop, a.tier, a.only)
     if not hs:
-        print(f"no harnesses registered for {prop} at tier {a.tier}")
-        return 2
+        import miragg
+        if not miragg.has_sites(prop) or a.only:
+            print(f"no harnesses registered for {prop} at tier {a.tier}")
+            return 2
+        # property decided by the MIR engine alone (no function of it is within CBMC's reach)
+        ensure_vendor()
+        slot = Slot()
+        try:
+            prepare(slot, [])
+            return finish(prop, a.tier, seed, t0, [], {}, [], [], [], tree_hash(slot.src), slot, a)
+        finally:
+            slot.release()
     # VERIF_SEED only permutes scheduling order (the technique makes no random choices)
     import random
     random.Random(seed).shuffle(hs)
@@ -598,6 +608,11 @@ def write_evidence(prop, tier, seed, t0, hs, res, problems, violations, known_li
                         "covers": f"{r.get('covers_sat')}/{r.get('covers_total')}",
                         "cbmc_seconds": r.get("time"),
                         "failed_checks": [fc["desc"] for fc in r.get("failed_checks", [])][:5]})
+    for o in (smt or {}).get("obligations", []) or []:
+        samples.append({"mir_obligation": o.get("obligation"), "statement": o.get("describe"), "verdicts": o.get("verdicts"),
+                        "status": o.get("status"), "paths_enumerated": o.get("paths"), "unroll": o.get("unroll"),
+                        "cut_by_unroll_bound": o.get("cut_by_unroll_bound"), "path_terms": o.get("path_terms")})
+    fns.update((smt or {}).get("functions", []) or [])
     ev = {
         "property_id": prop, "tier": tier, "seed": seed, "level": "model_checking",
         "coverage": {
@@ -613,7 +628,7 @@ def write_evidence(prop, tier, seed, t0, hs, res, problems, violations, known_li
             "exhaustive": False,
             "functions_encoded": sorted(fns),
             "stubs": STUBS_DOC,
-            "solver": "CBMC 6.11.0 (CaDiCaL) via Kani 0.68.0; unwinding assertions on",
+            "solver": "CBMC 6.11.0 (CaDiCaL) via Kani 0.68.0; unwinding assertions on; MIR obligations: z3 4.8.12 and cvc5 1.0 (must agree)",
             "solver_seconds": round(solver_s, 2),
             "queries_discharged": n_queries,
             "inconclusive": problems,
